@@ -317,6 +317,30 @@ def find_key_probe():
     return out
 
 
+def input_bursts(check, tier):
+    """the decoder as Input drives it on a pasted burst: a multi-byte character or an escape sequence straddling the 1024- / 2048-byte
+    read boundary inside a paste (paste_threshold set, so the paste loop fetches the rest) must come out as itself - the rig and the
+    reference of C08 (props/C08.py), restricted to the paste path where the pinned tree has no listed finding"""
+    import props.C08 as C8
+    cases = [c for c in C8.burst_cases(tier) if c.get("pt") is not None and c.get("split") == "read_boundary" and c["transport"] == "pipe"
+             and c["ops"][0][0] == "burst"]
+    s = Suite(check, "C03.input_bursts", "bursts of 2*READ_SIZE+k bytes through the real Input over a pipe with paste_threshold 0/8/100: every "
+              "2-, 3-, 4-byte character and 3-6-byte escape sequence straddling the 1024- or 2048-byte read boundary at every inner offset, "
+              "BYTES and CURTSIES names: every keypress of the burst decoded as itself, nothing lost or raised", bound="<= 2058 bytes", exhaustive=False)
+    per = max(1, len(cases) // 28)
+    for n, n_req, out in pmap(C8._batch_list, [cases[i:i + per] for i in range(0, len(cases), per)]):
+        s.evaluations += n
+        for kind, case, clause, detail, extra in out:
+            if kind == "harness":
+                check.engine_error(f"C03.input_bursts rig: {detail[:300]}")
+                continue
+            s.fail("C03.input." + clause.split(".", 1)[-1], dict(case, **{k: v for k, v in extra.items() if isinstance(v, (str, int, bool, type(None)))}), detail,
+                   replay={"kind": "suite", "module": "props.C08", "case": case})
+    s.nontrivial = set(range(s.evaluations))
+    s.samples = cases[:2]
+    s.done()
+
+
 def attach_probes():
     import contracts.findkey as FK
     FK.find_key.probe = find_key_probe
@@ -332,3 +356,4 @@ def run(check, tier, seed):
                  "returns None only for an empty buffer and raises only when no prefix is recognised (contracts/findkey.py); the decoder "
                  "itself through its per-call contract")
     bounded(check, tier)
+    input_bursts(check, tier)
